@@ -92,6 +92,12 @@ MostAlignedType *stoAlloc(unsigned code, ULong size)
 	return (MostAlignedType *) p;
 }
 void stoFree(Pointer p) { (void) p; }
+#ifdef NATIVE_REPLAY
+# include <malloc.h>
+ULong stoSize(Pointer p) { return (ULong) malloc_usable_size(p); }
+#else
+ULong stoSize(Pointer p) { return (ULong) __CPROVER_OBJECT_SIZE(p); }	/* the block is exactly as large as requested */
+#endif
 MostAlignedType *stoResize(Pointer p, ULong size)
 {
 	/* contents preserved up to min(old,new); modelled with realloc */
